@@ -164,6 +164,31 @@ def run(tier, seed):
                 fs = [f for f in r['failed'] if 'statically computed size' in f['desc']]
                 if fs: R.violation('pattern %r: automaton larger than the statically computed dfa_size' % r['meta']['pattern'], {'query': r['id'], 'kind': 'rx', 'pattern': r['meta']['pattern'], 'LMAX': 4, 'input_hex': ''})
                 # language mismatches on these patterns belong to C03 (dfa_builder merge defect) and are not capacity findings
+    # (4) default caps: the library derives state_count_cap and max_sit_count_per_state_cap = situation_count for itself.  situation_count counts every LR(1) item
+    #     (rule position x lookahead, <eof> and the error token included), so it bounds any state's size; for the state count it is the library's own choice and must at least
+    #     admit small dense automata.  Build obligation on single-terminal dense grammars (where the lookahead factor matters most): construction with DEFAULT limits inside the
+    #     constant evaluator must succeed; "exceeds the cap" there is a violation (the throw makes the construction a non-constant expression).
+    import os, lr1, emit
+    capg = [lr1.Grammar('cap1', ['S'], ['x'], 'S', [('S', ['x', 'S', 'x', 'S']), ('S', [])]),
+            lr1.Grammar('cap2', ['S'], ['x'], 'S', [('S', ['x', 'S', 'x']), ('S', ['x', 'S']), ('S', ['x'])]),
+            lr1.Grammar('cap3', ['S', 'A'], ['x'], 'S', [('S', ['A', 'A', 'A', 'A']), ('A', ['x', 'A']), ('A', [])]),
+            lr1.Grammar('cap4', ['S'], ['x'], 'S', [('S', ['x', 'S']), ('S', ['S', 'x']), ('S', ['x'])])]
+    capinfo = {}
+    for g in capg[:2] if tier == 'quick' else capg:
+        lr = lr1.LR1(g); capinfo[g.name] = {'reference_states': len(lr.states), 'reference_max_items_per_state': max(len(s) for s in lr.states)}
+        src = os.path.join(wd, 'caps_%s.cpp' % g.name)
+        with open(src, 'w') as f:
+            f.write('#include "hv.h"\nusing namespace ctpg; using namespace ctpg::buffers; using namespace ctpg::ftors;\nhv::state hv::hv_S; const void* hv::hv_ctx_addr = nullptr; unsigned hv::hv_ctx_tag = 0; hv::lex_state hv::hv_L;\n'
+                    '#define HV_CTX_PARAM hv::ctx_t&\n' + emit.grammar_cpp(g) + '\nstatic_assert(g::p.state_count >= 1, "constructed");\nint main() { return 0; }\n')
+        rcc, out, w, _ = vlib.run(['clang++-14', '-std=c++17', '-fsyntax-only', '-fconstexpr-steps=100000000', '-Wno-everything', '-I' + os.path.join(vlib.REPO, 'include'), '-I' + vlib.HARNESS, src], timeout=900, mem_gb=16)
+        capinfo[g.name]['builds_with_default_limits'] = (rcc == 0)
+        if rcc != 0:
+            notes = [l.strip() for l in out.split('\n') if 'error:' in l or 'note:' in l]
+            if any('constant expression' in l or 'exceeds the cap' in l or 'runtime_error' in l for l in notes):
+                R.violation('grammar %s (%d LR(1) states, at most %d items per state) cannot be constructed with the DEFAULT limits: %s' % (g.name, capinfo[g.name]['reference_states'], capinfo[g.name]['reference_max_items_per_state'],
+                            ' | '.join(notes[:3])[:300]), {'query': 'build_caps_%s' % g.name, 'kind': 'build', 'unit': 'caps_' + g.name, 'input_hex': ''})
+            else: R.inconclusive.append('caps unit %s does not build: %s' % (g.name, ' | '.join(notes[:2])[:200]))
+    R.extra['default_caps_family'] = capinfo
     return cp.run_deferred(R, tier, cases,
         'stack capacity: one safety-mode query per (nullable-run grammar, exact input length); builder: one add_situation step from an arbitrary caps-respecting analyzer state over a symbolic grammar '
         '(either the documented exception or no vector / table overrun); automaton size: patterns with nested repetitions built with exactly dfa_size states',
